@@ -892,8 +892,13 @@ class NetCDFRead(IORead):
         9.969209968386869e+36
 
         """
-        data_type = self.read_vars["variables"][ncvar].dtype.str[-2:]
-        return netCDF4.default_fillvals[data_type]
+        dtype = self.read_vars["variables"][ncvar].dtype
+        if dtype is str or dtype.kind in "OSU":
+            # String and character variables (as in
+            # `netcdf_indexer._default_FillValue`)
+            return netCDF4.default_fillvals["S1"]
+
+        return netCDF4.default_fillvals[dtype.str[-2:]]
 
     @_manage_log_level_via_verbosity
     def read(
